@@ -9,6 +9,8 @@ import json
 import random
 import sys
 
+import warnings
+
 import anyio
 from guard import guarded_run  # noqa: E402
 import sniffio
@@ -233,8 +235,19 @@ class Env:
             except BaseException as e:  # noqa
                 return {"k": "Err", "e": err_name(e)}
             h = H(len(self.hs), ctx, p)
+            if h.idx % 2 == 0:
+                # somebody else listens with a tiny queue and never reads it: their problem alone
+                h.by_cm = ctx.resource_added.stream_events(max_queue_size=1)
+                h.by_it = await h.by_cm.__aenter__()
+            if h.idx % 3 == 0:
+                # ... and somebody gave up waiting for an event: they are gone, nothing else
+                with anyio.move_on_after(0):
+                    await ctx.resource_added.wait_event()
             h.cm = ctx.resource_added.stream_events(max_queue_size=100000)
             h.it = await h.cm.__aenter__()
+            # a listener that reads what it has received only at the very end
+            h.lazy_cm = ctx.resource_added.stream_events(max_queue_size=100000)
+            h.lazy_it = await h.lazy_cm.__aenter__()
             self.hs.append(h)
             return {"k": "OK"}
         h = self.hs[op["c"]]
@@ -616,6 +629,24 @@ async def run_case(case):
                 out = await env.exec(op)
                 probe = await env.probe()
             steps.append({"op": op, "out": out, "probe": probe})
+        # what the late readers have received: the same events, each still saying where it happened
+        lazy = []
+        for h in env.hs:
+            got = []
+            with warnings.catch_warnings():
+                warnings.simplefilter("ignore")
+                h.ctx.resource_added.dispatch(ResourceEvent((Sentinel,), "lazy-end", None, False))
+            while True:
+                with anyio.fail_after(5):
+                    ev = await h.lazy_it.__anext__()
+                if ev.resource_types == (Sentinel,):
+                    if ev.resource_name == "lazy-end":
+                        break
+                    continue
+                got.append({"types": [ty_id(t) for t in ev.resource_types], "name": ev.resource_name,
+                            "is_factory": bool(ev.is_factory),
+                            "source_ok": ev.source is h.ctx and ev.topic == "resource_added"})
+            lazy.append(got)
         # release everything that is still blocked (not part of the recorded history)
         for h in env.hs:
             for rec in h.pending.values():
@@ -624,7 +655,7 @@ async def run_case(case):
             h.finish.set()
         tg.cancel_scope.cancel()
     return {"backend": case["backend"], "seed": case.get("seed"), "steps": steps,
-            "types_used": sorted(env.types_used)}
+            "types_used": sorted(env.types_used), "lazy": lazy}
 
 
 def main():
